@@ -128,6 +128,38 @@ def wrap(v, t):
     return v
 
 
+class Sym:
+    """An opaque integer term: the value of an input the rule wants to follow through the arithmetic (a hash, a
+    loaded word). Operations on it build terms instead of collapsing to Unknown; a branch on a term forks like any
+    unknown condition and is recorded as ("branch", term, outcome) in the path's events."""
+    __slots__ = ("t", "bits")
+
+    def __init__(self, t, bits=64):
+        self.t = t
+        self.bits = bits
+
+    def __eq__(self, o):
+        return isinstance(o, Sym) and o.t == self.t and o.bits == self.bits
+
+    def __hash__(self):
+        return hash((self.t, self.bits))
+
+    def __repr__(self):
+        return "Sym(%r,%d)" % (self.t, self.bits)
+
+
+def _bits_of(t):
+    t = clean_type(t)
+    return UNSIGNED.get(t) or SIGNED.get(t) or 64
+
+
+def sym_cast(v, t):
+    b = _bits_of(t)
+    if b < v.bits:
+        return Sym(("cast", b, v.t), b)
+    return Sym(v.t, b) if b != v.bits else v
+
+
 class FuncRef:
     """The address of a function of the program (an entry of a function-pointer table)."""
     __slots__ = ("name",)
@@ -321,6 +353,9 @@ class Interp:
             v = self.rv(self.ev(kids[0], env, fn, depth), env)
             if isinstance(v, (int, Ptr, FuncRef)):
                 c = (v != 0) if isinstance(v, int) else True
+            elif isinstance(v, Sym):
+                c = self.decide(kids[0])
+                self.events.append(("branch", v.t, c))
             else:
                 # unknown condition: if both arms leave the cursor state identical, do not fork
                 if self.try_merge(kids, env, fn, depth):
@@ -502,6 +537,11 @@ class Interp:
             return v != 0
         if isinstance(v, (Ptr, FuncRef)):
             return True
+        v = self.rv(v, env) if isinstance(v, tuple) else v
+        if isinstance(v, Sym):
+            d = self.decide(e)
+            self.events.append(("branch", v.t, d))
+            return d
         return self.decide(e)
 
     # ---- const file-scope objects (lookup tables): materialised from their initialisers
@@ -754,6 +794,8 @@ class Interp:
             v = self.ev(e.c[0], env, fn, depth)
             ck = e.get("ck")
             if ck == "LValueToRValue":
+                if isinstance(v, StructVal):
+                    return v            # a compound literal used as a value
                 return self.load(e.c[0], v, env, fn, depth)
             if ck == "ArrayToPointerDecay" and e.c[0].strip().k in ("MemberExpr", "ArraySubscriptExpr"):
                 p_, _sz = self.addr(e.c[0].strip(), env, fn, depth)
@@ -776,6 +818,10 @@ class Interp:
                     if ck == "IntegralToBoolean":
                         return 1 if v else 0
                     return wrap(v, e.t)
+            if isinstance(v, Sym) and (ck in ("IntegralCast",) or k == "CStyleCastExpr") and "*" not in (e.t or ""):
+                return sym_cast(v, e.t)
+            if isinstance(v, Sym) and ck == "IntegralToBoolean":
+                return Sym(("cmp", "!=", v.t, 0), 32)
             return v
         if k == "DeclRefExpr":
             if e.get("dk") == "enum":
@@ -903,6 +949,14 @@ class Interp:
                 return ("ADDR", t.get("d"), t.t, env)      # address of a local: carries the frame it lives in
             return U
         v = self.rv(self.ev(e.c[0], env, fn, depth), env)
+        if isinstance(v, Sym):
+            if op == "!":
+                return Sym(("cmp", "==", v.t, 0), 32)
+            if op in ("~", "-"):
+                return Sym((op, v.t, _bits_of(e.t)), _bits_of(e.t))
+            if op == "+":
+                return v
+            return U
         if not isinstance(v, int):
             if op == "!" and isinstance(v, (Ptr, FuncRef)):
                 return 0
@@ -960,6 +1014,27 @@ class Interp:
             self.lval_set(e.c[0], v, env, fn, depth)
             return v
         if e.k == "CompoundAssignOperator":
+            lhs_ = e.c[0].strip()
+            if _has_effects(lhs_) and (lhs_.k in ("ArraySubscriptExpr", "MemberExpr") or (lhs_.k == "UnaryOperator" and lhs_.op == "*")):
+                # `*p++ |= x`: the lvalue is evaluated once
+                p_, size_ = self.addr(lhs_, env, fn, depth)
+                cur = U
+                if p_ is not None:
+                    self.access(p_, size_, "r", e)
+                    if self.heap is not None and isinstance(p_.off, int):
+                        if (p_.base, p_.off) in self.heap:
+                            cur = self.heap[(p_.base, p_.off)]
+                        else:
+                            mem = getattr(self, "memory", None)
+                            v2 = mem(p_.base, p_.off, size_) if mem is not None else None
+                            cur = v2 if v2 is not None else U
+                r = self.rv(self.ev(e.c[1], env, fn, depth), env)
+                v = self.arith(op[:-1], cur, r, e.c[0].t, e)
+                if p_ is not None:
+                    self.access(p_, size_, "w", e)
+                    if self.heap is not None and isinstance(p_.off, int):
+                        self.heap[(p_.base, p_.off)] = wrap(v, lhs_.t) if isinstance(v, int) else v
+                return v
             cur0 = self.ev(e.c[0].strip(), env, fn, depth)
             cur = self.rv(cur0, env)
             if isinstance(cur0, tuple) and cur0 and cur0[0] == "MEM":
@@ -984,12 +1059,25 @@ class Interp:
         p, size = self.addr(lnode, env, fn, depth)
         if p is not None and isinstance(p.off, int) and (p.base, p.off) in self.heap:
             return self.heap[(p.base, p.off)]
+        mem = getattr(self, "memory", None)
+        if mem is not None and p is not None and isinstance(p.off, int):
+            v2 = mem(p.base, p.off, size)
+            if v2 is not None:
+                return v2
         return U
 
     def ev_lhs_effects(self, lhs, env, fn, depth):
         pass
 
     def arith(self, op, a, b, t, e):
+        if (isinstance(a, Sym) and isinstance(b, (int, Sym))) or (isinstance(b, Sym) and isinstance(a, int)):
+            ta = a.t if isinstance(a, Sym) else a
+            tb = b.t if isinstance(b, Sym) else b
+            if op in ("<", "<=", ">", ">=", "==", "!="):
+                return Sym(("cmp", op, ta, tb), 32)
+            if op in ("+", "-", "*", "/", "%", "<<", ">>", "&", "|", "^"):
+                return Sym((op, ta, tb, _bits_of(t)), _bits_of(t))
+            return U
         if isinstance(a, Ptr) and isinstance(b, int) and op in ("+", "-"):
             if not isinstance(a.off, int):
                 return a
@@ -1086,7 +1174,19 @@ class Interp:
                     v2 = mem(args[1].base, args[1].off, n)
                     if v2 is not None:
                         val = wrap(v2, args[0][2]) if isinstance(v2, int) else v2
+                if val is U and self.heap is not None and isinstance(args[1], Ptr) and isinstance(args[1].off, int) and isinstance(n, int) and 0 < n <= 8:
+                    # bytes the program itself stored one by one (little-endian target)
+                    bs = [self.heap.get((args[1].base, args[1].off + i)) for i in range(n)]
+                    if all(isinstance(b, int) for b in bs):
+                        val = wrap(sum((b & 0xFF) << (8 * i) for i, b in enumerate(bs)), args[0][2])
                 tgt_env[args[0][1]] = val
+            elif isinstance(args[1], tuple) and args[1] and args[1][0] == "ADDR" and self.heap is not None \
+                    and isinstance(args[0], Ptr) and isinstance(args[0].off, int) and isinstance(n, int) and 0 < n <= 8:
+                # memcpy(p, &scalar, n): the scalar's bytes in memory order (little-endian target)
+                src_env = args[1][3] if len(args[1]) > 3 else env
+                v = src_env.get(args[1][1], U)
+                for i in range(n):
+                    self.heap[(args[0].base, args[0].off + i)] = ((v >> (8 * i)) & 0xFF) if isinstance(v, int) else U
             return args[0]
         if name in ("memset", "__builtin_memset", "__memset_chk"):
             self.access(args[0], args[2] if len(args) > 2 else U, "w", e)
